@@ -40,7 +40,7 @@ ASSUMPTIONS = [
     "it is used only as the sensitivity control of the monitor",
 ]
 NONTRIVIAL = ["deccell", "hscell"]
-DEADLINE = {"quick": 40, "thorough": 600}
+DEADLINE = {"quick": 90, "thorough": 600}
 
 KEYS = {   # name -> (source, arg, tiers)
     "srv2048": ("S", "rsa", "qt"),
